@@ -158,6 +158,7 @@ private:
   bool _is_fully_specified_recursive_protect;
   bool _subst_decl_recursive_protect;
   bool _using_search_protect;
+  bool _base_search_protect;
 };
 
 inline std::ostream &
